@@ -48,7 +48,14 @@ RULE = (
     "polled first change counted from the library's FriendListChanged/BlockListChanged notification — change 2 "
     "forbids or permits the second; all change kinds, directory removal without rescan; both judged 3 s after the "
     "second); nested (A contains B contains C, C or B removed / added again WITHOUT a rescan, then requests, "
-    "searches and shares requests for its files from every user: the files belong to the closest remaining parent). "
+    "searches and shares requests for its files from every user: the files belong to the closest remaining parent); "
+    "shift (another user's upload — aborted by the user / complete / active — FIRST in the transfer list, then an "
+    "upload to fred UPLOADING and held with 1-2 further queued uploads to fred behind it; a change forbids fred and, "
+    "after the same seeded gap of 0-8 loop steps / 1-30 ms, the user removes the first list entry with "
+    "TransferManager.remove(); all judged 3 s later); prefix (a restricted directory holds live/, live_private/ and "
+    "live_takes.mp3; live/ is added as a shared directory of its own — mostly EVERYONE — WITHOUT a rescan, then "
+    "requests, searches and shares requests for the prefix siblings and the files below live/, mostly from the "
+    "stranger; optionally removed again without rescan or rescanned). "
     "Every configuration change is followed by 3 virtual seconds (user-management poll 1 s + management cycle), then "
     "every upload is judged. Non-trivial: >= 1 decisive observation (a refused-expected request, a search / shares "
     "reply, an upload present when a change landed); distinct = (mode assignment, list signature, state of the upload "
@@ -78,12 +85,14 @@ MIN_OBS = {
     'quick': {'requests_judged': 260, 'search_replies_judged': 120, 'shares_replies_judged': 75, 'reeval_checks': 600,
               'changes_applied': 620, 'uploads_created_permitted': 290, 'reeval_uploads_unfinished': 570,
               'reeval_requeue_expected': 140, 'reeval_user_aborted_checked': 28, 'phrase_checks': 200,
-              'substring_phrases_pushed': 60, 'double_changes': 55, 'judgements_on_moved_files': 140},
+              'substring_phrases_pushed': 50, 'double_changes': 55, 'judgements_on_moved_files': 140,
+              'removals_racing_a_reevaluation': 25, 'subdirectory_adds': 25},
     'thorough': {'requests_judged': 10000, 'search_replies_judged': 4800, 'shares_replies_judged': 3000,
                  'reeval_checks': 24000, 'changes_applied': 24800, 'uploads_created_permitted': 11600,
                  'reeval_uploads_unfinished': 22800, 'reeval_requeue_expected': 5600,
                  'reeval_user_aborted_checked': 1100, 'phrase_checks': 8000, 'substring_phrases_pushed': 2400,
-                 'double_changes': 2200, 'judgements_on_moved_files': 5600},
+                 'double_changes': 2200, 'judgements_on_moved_files': 5600,
+                 'removals_racing_a_reevaluation': 1000, 'subdirectory_adds': 1000},
 }
 SHARD_TIMEOUT = {'quick': 600, 'thorough': 5400}
 SIZES = {'quick': 1200, 'thorough': 180000}
@@ -131,6 +140,11 @@ def cases(tier: str, seed: int) -> list:
 def dir_files(word: str) -> list:
     return [['', f'{word.title()} Morning Song.mp3'], ['live', f'{word.upper()} evening_tune.flac'],
             ['', f'{word} ghost track.mp3']]
+
+
+def prefix_files(word: str) -> list:
+    """Siblings of the sub-directory 'live' whose names merely START with its name (file indices 3 and 4)."""
+    return [['live_private', f'{word} hidden cut.mp3'], ['', 'live_takes.mp3']]
 
 
 def _g_flags(g: dict, u: str) -> frozenset:
@@ -230,7 +244,7 @@ def _forbid(rng: random.Random, g: dict, u: str, k: int, rescan: bool = True) ->
 
 #: changes the library is told about at once (event emitted by the shares API); the others (friends, blocks)
 #: are found by the user-management poll
-SYNC_KINDS = ('dirmode', 'dirremove', 'diradd')
+SYNC_KINDS = ('dirmode', 'dirremove', 'diradd', 'subadd', 'subremove', 'rescan')
 
 
 def _pick(rng: random.Random, make, ok, tries: int = 12) -> dict:
@@ -372,7 +386,7 @@ def gen_plan(rng: random.Random, n: int) -> dict:
     modes = ASSIGNMENTS[n % len(ASSIGNMENTS)]
     nd = len(modes)
     template = rng.choice(['reeval'] * 8 + ['requests'] * 4 + ['search'] * 4 + ['shares'] * 2 + ['mixed'] * 2 +
-                          ['double'] * 5 + ['nested'] * 4)
+                          ['double'] * 5 + ['nested'] * 4 + ['shift'] * 4 + ['prefix'] * 4)
     if template == 'nested' and nd < 3:
         template = 'requests'
     parents = [None, 0, 1] if template == 'nested' else rng.choice(LAYOUTS[nd])
@@ -395,7 +409,8 @@ def gen_plan(rng: random.Random, n: int) -> dict:
         plan['friends'] = sorted(g['friends'])
         plan['blocked'] = dict(g['blocked'])
         plan['dirs'] = [{'word': d['word'], 'rel': d['rel'], 'mode': d['mode'], 'users': list(d['users']),
-                         'files': dir_files(d['word'])} for d in g['dirs']]
+                         'files': dir_files(d['word']) + (prefix_files(d['word']) if d.get('prefix') else [])}
+                        for d in g['dirs']]
 
     def add(st: dict):
         steps.append(st)
@@ -503,6 +518,72 @@ def gen_plan(rng: random.Random, n: int) -> dict:
             if _round == 0 and len(steps) < 7:
                 # make the first upload permitted again for a second round
                 add(_permit(rng, g, u1, k1, {'mode': g['dirs'][k1]['mode'], 'users': list(g['dirs'][k1]['users'])}))
+    elif template == 'shift':
+        # the transfer list shifts under a running re-evaluation: fred has an upload being served (its abort
+        # takes loop steps) and further queued ones behind it; an EARLIER entry of the list (another user's
+        # aborted / complete / active upload) is removed by the user a few loop steps after the forbidding change
+        u1, u0 = 'fred', rng.choice(['lisa', 'stan'])
+        k1, k0 = rng.randrange(nd), rng.randrange(nd)
+        for u, k in ((u1, k1), (u0, k0)):
+            d = g['dirs'][k]
+            if d['mode'] == FRIENDS:
+                g['friends'].add(u)
+            elif d['mode'] == USERS and u not in d['users']:
+                d['users'].append(u)
+            if 'uploads' in _g_flags(g, u):
+                g['blocked'].pop(u)
+        kind0 = rng.choice(['aborted', 'complete', 'active'])
+        plan['target_state'] = 'shift:' + kind0
+        if kind0 == 'complete':
+            plan['hold_by_user'] = {u0: 0.2}
+        freeze()
+        add(_request(rng, g, u0, k0, rng.randrange(2), 'exact'))
+        if kind0 == 'aborted':
+            add({'k': 'abort', 'i': 0})
+        add(_request(rng, g, u1, k1, 0, 'exact'))
+        add(_request(rng, g, u1, k1, 1, 'exact'))
+        if rng.random() < 0.4:
+            add(_request(rng, g, u1, k1, 2, 'exact'))
+        if rng.random() < 0.5:
+            c1 = {'k': 'block', 'u': u1, 'flag': rng.choice(['UPLOADS', 'ALL', 'SEARCHES|UPLOADS']),
+                  'how': rng.choice(['set', 'assign'])}
+        else:
+            c1 = _forbid(rng, g, u1, k1, rescan=False)
+        gap = ['y', rng.randint(0, 8)] if rng.random() < 0.85 else ['ms', rng.choice([1, 2, 5, 10, 30])]
+        steps.append({'k': 'double', 'c1': c1, 'c2': {'k': 'remove', 'i': 0}, 'gap': gap})
+        _apply_g(g, c1)
+        if rng.random() < 0.4:
+            add(_permit(rng, g, u1, k1, {'mode': plan['dirs'][k1]['mode'], 'users': list(plan['dirs'][k1]['users'])}))
+    elif template == 'prefix':
+        # a sub-directory of a (restricted) shared directory becomes a shared directory of its own WITHOUT a
+        # rescan: only the files below it change owner, not the siblings whose names start with its name
+        restrictive = [k for k, d in enumerate(g['dirs']) if d['mode'] != EVERYONE]
+        k = rng.choice(restrictive) if restrictive else rng.randrange(nd)
+        g['dirs'][k]['prefix'] = True
+        freeze()
+        word = g['dirs'][k]['word']
+        if rng.random() < 0.25:
+            ok = [u for u in PEOPLE if _g_permitted(g, u, k)]
+            if ok:
+                add(_request(rng, g, rng.choice(ok), k, rng.choice([1, 3, 4]), 'exact'))
+        add({'k': 'subadd', 'd': k, 'sub': 'live', 'mode': EVERYONE if rng.random() < 0.7 else rng.choice(MODES),
+             'users': list(rng.choice(USER_LISTS)), 'rescan': False})
+
+        def probe():
+            r = rng.random()
+            u = rng.choice(['stan', 'stan', 'lisa', 'fred'])
+            if r < 0.45:
+                return {'k': rng.choice(['queue', 'queue', 'treq']), 'u': u, 'd': k, 'f': rng.choice([1, 3, 3, 4, 4]),
+                        'v': 'exact'}
+            if r < 0.8:
+                return {'k': 'search', 'carrier': rng.choice(['server', 'filesearch']), 'u': u,
+                        'q': rng.choice(['live', word, 'hidden', 'takes', 'cut', 'mp3'])}
+            return {'k': 'shares', 'u': u}
+        for _ in range(rng.randint(3, 5)):
+            add(probe())
+        if len(steps) < 7 and rng.random() < 0.4:
+            add(rng.choice([{'k': 'subremove', 'd': k, 'sub': 'live', 'rescan': False}, {'k': 'rescan'}]))
+            add(probe())
     elif template == 'nested':
         # A contains B contains C: an inner directory is removed without a rescan, its files belong to the
         # closest remaining parent from then on
@@ -721,7 +802,7 @@ def run_case(params: dict) -> dict:
             peer = await w.add_peer(name, obf=False)
             peers[name] = peer
             dl = Downloader(w, peer, 'up', up.port, random.Random(f'{seed}:{n}:{name}'))
-            dl.default['hold'] = plan['hold']
+            dl.default['hold'] = (plan.get('hold_by_user') or {}).get(name, plan['hold'])
             if plan['behave'].get(name) == 'silent':
                 dl.default['reply'] = 'silent'
             dls[name] = dl
@@ -1049,6 +1130,38 @@ def run_case(params: dict) -> dict:
                     ck = 'diradd-norescan'
                 self_check('after add')
                 alias_of[st['d']] = client.shares.get_shared_directory(p).alias
+            elif kind == 'subadd':
+                # a sub-directory of shared directory d becomes a shared directory of its own
+                p = os.path.join(paths[st['d']], st['sub'])
+                if p in model.dirs or paths[st['d']] not in model.dirs:
+                    trace.append((round(w.now, 3), 'skipped', st))
+                    return None
+                client.shares.add_shared_directory(p, share_mode=DirectoryShareMode(st['mode']), users=list(st['users']))
+                model.add(p, st['mode'], list(st['users']))
+                ck = 'subadd-norescan'
+                add('subdirectory_adds')
+                if st.get('rescan', True):
+                    await up.call(client.shares.scan())
+                    model.scan_all()
+                    ck = 'subadd'
+                self_check('after adding a sub-directory')
+            elif kind == 'subremove':
+                p = os.path.join(paths[st['d']], st['sub'])
+                if p not in model.dirs:
+                    trace.append((round(w.now, 3), 'skipped', st))
+                    return None
+                client.shares.remove_shared_directory(p)
+                model.remove(p)
+                ck = 'subremove-norescan'
+                if st.get('rescan', True):
+                    await up.call(client.shares.scan())
+                    model.scan_all()
+                    ck = 'subremove'
+                self_check('after removing a sub-directory')
+            elif kind == 'rescan':
+                await up.call(client.shares.scan())
+                model.scan_all()
+                self_check('after rescan')
             else:
                 raise RuntimeError(f'not a change: {st}')
             return ck
@@ -1080,7 +1193,7 @@ def run_case(params: dict) -> dict:
             before = snapshot()
             noticed.clear()
             ck1 = await apply_change(c1)
-            if ck1 is not None and c1['k'] not in SYNC_KINDS and c2['k'] in SYNC_KINDS:
+            if ck1 is not None and c1['k'] not in SYNC_KINDS and (c2['k'] in SYNC_KINDS or c2['k'] == 'remove'):
                 # the second change is to arrive while the library works on the first: wait until its poll
                 # has found the first one
                 try:
@@ -1092,12 +1205,25 @@ def run_case(params: dict) -> dict:
             else:
                 await asyncio.sleep(gap[1] / 1000.0)
             mid = snapshot()
-            ck2 = await apply_change(c2)
+            if c2['k'] == 'remove':
+                # the user removes an earlier entry of the transfer list while the first change is worked on
+                ups = uploads()
+                ck2 = None
+                if ups:
+                    victim = ups[c2['i'] % len(ups)]
+                    await up.call(mgr.remove(victim))
+                    user_aborted.pop(id(victim), None)
+                    ck2 = 'user-remove'
+                    add('removals_racing_a_reevaluation')
+                n_changes = int(ck1 is not None)
+            else:
+                ck2 = await apply_change(c2)
+                n_changes = int(ck1 is not None) + int(ck2 is not None)
             clock['last_change'] = w.now
-            add('changes_applied', int(ck1 is not None) + int(ck2 is not None))
+            add('changes_applied', n_changes)
             add('double_changes')
             for ck_ in (ck1, ck2):
-                if ck_ is not None:
+                if ck_ is not None and ck_ != 'user-remove':
                     cov('change_kinds', ck_.split(':')[0])
             cov('double_gaps', f'{gap[0]}{gap[1]}')
             ck = f'double:{ck1}+{ck2}'
@@ -1204,7 +1330,7 @@ def run_case(params: dict) -> dict:
                 await do_phrases(st)
             elif k in ('shares', 'dirc'):
                 await do_shares(st)
-            elif k in ('friend', 'block', 'dirmode', 'dirremove', 'diradd'):
+            elif k in ('friend', 'block', 'dirmode', 'dirremove', 'diradd', 'subadd', 'subremove', 'rescan'):
                 await do_change(st)
             elif k == 'double':
                 await do_double(st)
